@@ -1,6 +1,12 @@
-import CalicoVerif.Model.C30
+import CalicoVerif.Proofs.C30Tier
 /-!
 C30 — Windows rule flattening preserves policy verdicts for supported rules.
+Property theorems (helper lemmas live in `CalicoVerif.Proofs.C30*`).
+
+`getPolicySetRules ∘ members` is the model of what policysets hands to HNS for one tier and one
+direction; `hnsActions` returns the actions of ALL matching rules with the lowest priority number
+(HNS's own tie-break between equal priorities is unknown), `tierVerdict` is Calico's
+first-match-in-order semantics with the end-of-tier action.
 -/
 namespace CalicoVerif.C30
 
@@ -8,5 +14,112 @@ namespace CalicoVerif.C30
 theorem protocolNameToNumber_table :
     protocolNameToNumber "TCP" = 6 ∧ protocolNameToNumber "tcp" = 6 ∧ protocolNameToNumber "Udp" = 17 ∧
     protocolNameToNumber "sctp" = 132 ∧ protocolNameToNumber "bogus" = 256 := by decide
+
+/-- Chunking (SplitIPList / SplitPortList, any chunk size > 0, any list) never changes whether an
+address/port list admits a value: "no constraint, or some element matches" is preserved. -/
+theorem split_preserves {α : Type} (l : List α) (n : Nat) (hn : 0 < n) (f : α → Bool) :
+    (splitList l n).any (fun c => c.isEmpty || c.any f) = (l.isEmpty || l.any f) :=
+  splitList_any l n hn f
+
+example : splitList [1, 2, 3, 4, 5] 2 = [[1, 2], [3, 4], [5]] := by decide
+example : splitList ([] : List Nat) 2 = [[]] := by decide
+
+/-- IntersectCIDRs (used when a rule has both CIDRs and an IP set on one side): an address is in some
+output CIDR iff it is in a CIDR of each input list. -/
+theorem intersect_preserves (as bs : List Addr) (ha : ∀ a ∈ as, a.v6 = false) (hb : ∀ b ∈ bs, b.v6 = false)
+    (ip : Nat) :
+    (intersectCIDRs as bs).any (·.contains ip) = (as.any (·.contains ip) && bs.any (·.contains ip)) :=
+  intersectCIDRs_any as bs ha hb ip
+
+/-- One supported proto rule: every generated HNS rule carries the rule's action and direction, and
+a packet matches SOME generated rule iff it matches the proto rule — whatever the chunk size, i.e.
+"including when addresses or ports are split across several rules". -/
+theorem rule_flattening (s : IPSets) (hs : s.wf) (hipp : s.ipportOK) (r : Rule) (inbound : Bool)
+    (hsup : r.supportedIn inbound) (n : Nat) (hn : 0 < n) (pid : String) (p : Pkt) :
+    (∀ h ∈ hr s pid r inbound n, h.action = ruleAction r ∧ h.inbound = inbound) ∧
+    (hr s pid r inbound n).any (·.matches p) = r.matches s p :=
+  rule_sem s hs hipp r inbound hsup n hn pid p
+
+/-- Priority bumping: in the list built by GetPolicySetRules priorities never decrease and two
+rules with different actions never share a priority "run" — for ANY members, supported or not. -/
+theorem priorities_good (sets : List (Option (List HRule))) (inbound eotDrop : Bool) :
+    good (getPolicySetRules sets inbound eotDrop) :=
+  (getPolicySetRules_spec sets inbound eotDrop ⟨0, 0, 0, 0, 0⟩).1
+
+/-- MAIN THEOREM.  For every IP set contents, every list of policy sets whose rules use supported
+criteria only, both directions, both end-of-tier actions, every chunk size and every packet:
+the HNS rules evaluated by priority have at least one decisive rule, and EVERY decisive rule
+(whatever HNS's tie-break) carries exactly the verdict of the policy semantics. -/
+theorem hns_verdict (s : IPSets) (hs : s.wf) (hipp : s.ipportOK) (sets : List (String × PolicySet))
+    (hsup : ∀ x ∈ sets, x.2.supported) (n : Nat) (hn : 0 < n) (d eot : Bool) (p : Pkt) :
+    let rules := getPolicySetRules (sets.map fun x => some (x.2.members s x.1 n)) d eot
+    hnsActions rules p ≠ [] ∧ ∀ a ∈ hnsActions rules p, a = tierVerdict s (sets.map (·.2)) d eot p := by
+  intro rules
+  obtain ⟨hg, hf⟩ := getPolicySetRules_spec (sets.map fun x => some (x.2.members s x.1 n)) d eot p
+  rw [firstAction_gather s hs hipp n hn d p sets hsup, ← tierVerdict_eq] at hf
+  exact first_match_decides rules hg p _ hf
+
+/-! ## Non-vacuity -/
+
+def a1 : Addr := ⟨"10.0.0.1", false, 167772161, 32⟩
+def a2 : Addr := ⟨"10.0.0.2", false, 167772162, 32⟩
+def net24 : Addr := ⟨"10.0.0.0/24", false, 167772160, 24⟩
+def setsW : IPSets := ⟨[("s1", [a1, a2])], [("pp", [⟨a1, "tcp", 80⟩])]⟩
+/-- deny from IP set s1 on tcp/80, then allow 10.0.0.0/24 -/
+def psW : PolicySet :=
+  ⟨[{ action := "deny", proto := some (.name "tcp"), srcSets := ["s1"], dstPorts := [⟨80, 80⟩], ruleId := "r1" },
+    { action := "allow", srcNet := [net24], ruleId := "r2" }], []⟩
+
+theorem setsW_wf : setsW.wf := IPSets.wf_of_entries _ (by decide)
+
+theorem setsW_ipportOK : setsW.ipportOK := IPSets.ipportOK_of_entries _ (by decide)
+
+theorem psW_supported : psW.supported := by
+  constructor
+  · intro r hr
+    simp only [psW, List.mem_cons, List.not_mem_nil, or_false] at hr
+    rcases hr with rfl | rfl
+    · exact ⟨⟨Or.inl rfl, rfl, rfl, rfl, rfl, rfl, by decide, by decide, by decide, by decide⟩, Or.inl rfl⟩
+    · exact ⟨⟨Or.inl rfl, rfl, rfl, rfl, rfl, rfl, by decide, trivial, by decide, by decide⟩, Or.inl rfl⟩
+  · intro r hr; simp [psW] at hr
+
+/-- The hypotheses of `hns_verdict` hold for a non-trivial instance, and its verdicts differ by packet. -/
+example : setsW.wf ∧ setsW.ipportOK ∧ psW.supported ∧
+    tierVerdict setsW [psW] true true ⟨6, 167772161, 1000, 167772170, 80⟩ = .block ∧
+    tierVerdict setsW [psW] true true ⟨6, 167772165, 1000, 167772170, 80⟩ = .allow ∧
+    tierVerdict setsW [psW] true false ⟨6, 3232235777, 1000, 167772170, 80⟩ = .pass :=
+  ⟨setsW_wf, setsW_ipportOK, psW_supported, by decide, by decide, by decide⟩
+
+/-! ## Why the restrictions in `supportedIn` are needed -/
+
+/-- Two IP sets on one side: Calico means "in BOTH sets", the converter emits their UNION.
+(Not reachable from the v3 API: validation forbids combining a selector with a source Service, so
+the calculation graph never emits two ids on a side; stated to show the hypothesis is necessary.) -/
+theorem two_sets_union_not_intersection :
+    ∃ (s : IPSets) (ps : PolicySet) (p : Pkt), s.wf ∧
+      hnsActions (getPolicySetRules [some (ps.members s "p" 4000)] true true) p = [.allow] ∧
+      tierVerdict s [ps] true true p = .block := by
+  refine ⟨⟨[("s1", [a1]), ("s2", [a2])], []⟩,
+    ⟨[{ action := "allow", srcSets := ["s1", "s2"], ruleId := "r1" }], []⟩,
+    ⟨6, 167772161, 1000, 167772170, 80⟩, ?_, by decide, by decide⟩
+  exact IPSets.wf_of_entries _ (by decide)
+
+/-- COUNTEREXAMPLE (reachable): an egress rule that names a destination Service (IP-port set) AND a
+protocol.  The converter returns early from the DstIpPortSetIds branch and never looks at
+`Protocol` (nor at the source ports): `allow udp to service {10.0.0.1 tcp/80}` is programmed as
+"allow tcp/80 to 10.0.0.1", so a TCP packet is allowed where the policy (and the Linux dataplanes)
+deny it.  All criteria used are supported ones, so the unrestricted statement is false. -/
+theorem hns_verdict_false_service_protocol :
+    ∃ (s : IPSets) (ps : PolicySet) (p : Pkt), s.wf ∧ s.ipportOK ∧
+      (∀ r ∈ ps.outRules, r.supported) ∧
+      hnsActions (getPolicySetRules [some (ps.members s "p" 4000)] false true) p = [.allow] ∧
+      tierVerdict s [ps] false true p = .block :=
+  ⟨setsW, ⟨[], [{ action := "allow", proto := some (.name "udp"), dstIpPortSets := ["pp"], ruleId := "r1" }]⟩,
+    ⟨6, 167772170, 1000, 167772161, 80⟩, setsW_wf, setsW_ipportOK,
+    by
+      intro r hr
+      simp only [List.mem_singleton] at hr; subst hr
+      exact ⟨Or.inl rfl, rfl, rfl, rfl, rfl, rfl, by decide, by decide, by decide, by decide⟩,
+    by decide, by decide⟩
 
 end CalicoVerif.C30
